@@ -37,6 +37,10 @@ package totp2fa
 //@   ensures[C09] login_announced: each Sess.Put("uid", _) => after Fire("After", EventAuth, _, _, _)
 //@   -- C09: the stamp the announcement queues is not taken back by anything queued after it
 //@   ensures[C09] stamp_survives: each Fire("After", EventAuth, _, _, _) => !(after Sess.DelAll(_)) && !(after Sess.Del("last_action"))
+//@   -- C09: an announcement that failed (a handler in the chain errored, so later ones - the
+//@   -- stamp - did not run) is an error outcome, not a completed login
+//@   ensures[C09] announcement_error_outcome: each Fire("After", EventAuth, _, _, _) -> (_, ?fe) => fe != nil ==>
+//@       (result == fe && !emits Redirect(_) && !emits Respond(_, _, _))
 //@   ensures[C17] no_secret_leak: secrets_clean
 //@   -- C01/C02/C13: the session is completed only for the logged-in user, or - when nobody is
 //@   -- logged in - for the account parked in totp_pending, and only with that account's own factor
@@ -85,7 +89,7 @@ package totp2fa
 //@   ensures nothing_saved: !emits Store.Save(_) && (each Sess.Put(?k, _) => k == SessionTOTPSecret)
 //@
 //@ func (*TOTP).PostConfirm
-//@   property C13 C18 C17
+//@   property C13 C12 C18 C17
 //@   ensures[C17] no_secret_leak: secrets_clean
 //@   -- the secret that becomes the account's factor is the one parked in this session, a code
 //@   -- valid for it was presented, and it is saved on the request's own user
@@ -95,6 +99,10 @@ package totp2fa
 //@   ensures[C13] owner_only: each Store.Save(?s) -> _ =>
 //@       ite(ctxuser(r) != nil, s == ctxuser(r), before Store.Load(?p) -> (?u, ?le) :: le == nil && u == s &&
 //@           p == ite(ctxpid(r) != nil, asstring(ctxpid(r)), sess(r, "uid")))
+//@   -- C12: the code accepted for the enrolment is a used code - with replay protection it is
+//@   -- recorded as the last one, so the login that follows cannot present it again
+//@   ensures[C12] enrol_code_recorded: each Store.Save(?s) -> _ => implements(s, "totp2fa.UserOneTime") ==>
+//@       (before Body.Read(PageTOTPConfirm) -> (?vals, ?re) :: re == nil && TOTPLastCode(s) == val(vals, "GetCode"))
 //@   -- a completed (saved) enrolment spends the e-mail authorisation and the parked secret on
 //@   -- every path, whatever the after-event handlers answer
 //@   ensures[C13] authorisation_spent: each Store.Save(_) -> ?e => (e == nil && !panics) ==>
@@ -102,7 +110,7 @@ package totp2fa
 //@        (each Fire("After", _, _, _, _) => before Sess.Del(Session2FAAuthed) && before Sess.Del(SessionTOTPSecret)))
 //@   ensures[C13] never_logs_in: !emits Sess.Put(_, _)
 //@   ensures[C18] no_panic: !panics
-//@   ensures[C18] save_error_outcome: each Store.Save(_) -> ?e => e != nil ==> (result == e && !emits Respond(_, _, _) && !emits Sess.Del(_))
+//@   ensures[C18] save_error_outcome: each Store.Save(_) -> ?e => e != nil ==> (result == e && !emits Respond(_, _, _) && !emits Sess.Del(_) && !emits Sess.DelAll(_))
 //@
 //@ func (*TOTP).PostRemove
 //@   property C13 C18 C17
